@@ -32,6 +32,10 @@ type C07Op struct {
 	// Noise: for the directory passes, what else lies in the scanned directory: 1 = a .gitignore
 	// ignoring *.iml / *.log plus such files sorting before, between and after the sources
 	Noise int `json:"noise,omitempty"`
+	// SameList: the operation hands over exactly the list (same files, same paths, same slice) of the
+	// previous ident/full operation of its process - as `coca deps` and `coca tbs` run the identifier
+	// pass and then the full pass over one list
+	SameList bool `json:"same_list,omitempty"`
 	// ArgForm: how the directory is named on the call: 0 absolute, 1 relative to the working
 	// directory, 2 "./"-prefixed relative, 3 absolute with a trailing slash
 	ArgForm int `json:"arg_form,omitempty"`
@@ -118,6 +122,8 @@ func c07Options(t *tape.Tape, thorough bool) gen.Options {
 	o.Enums = t.Bool(1, 3)
 	o.Legacy = t.Bool(1, 6)
 	o.WideLine = t.Bool(1, 8)
+	o.PackageInfo = t.Bool(1, 6)
+	o.HalfWritten = t.Bool(1, 8)
 	if t.Bool(1, 40) {
 		o.MinFiles, o.MaxFiles = 20, 40 // a larger project in one delivery
 	}
@@ -164,6 +170,10 @@ func genHistory(t *tape.Tape, nFiles int, thorough bool, passes []string) []C07P
 				}
 				if len(op.Files) == 0 {
 					op.Files = []int{perm[0]}
+				}
+				if n := len(proc.Ops); n > 0 && (op.Pass == "ident" || op.Pass == "full") && (proc.Ops[n-1].Pass == "ident" || proc.Ops[n-1].Pass == "full") && t.Bool(1, 3) {
+					op.Files = append([]int(nil), proc.Ops[n-1].Files...)
+					op.SameList = true
 				}
 				if t.Bool(1, 4) {
 					op.Noise = 1 + t.Pick(2)
@@ -291,7 +301,11 @@ type c07run struct {
 func (r *c07run) place(dir string, pos int, fi int) (string, error) {
 	f := r.sc.Files[fi]
 	// dodge coca's file filters for the directory passes: neutral base name
-	p := filepath.Join(dir, fmt.Sprintf("%02d_%s", pos, f.ID), "F"+f.ID+".java")
+	base := "F" + f.ID + ".java"
+	if strings.HasSuffix(f.Path, "/package-info.java") {
+		base = "package-info.java" // the one file name that means something by itself
+	}
+	p := filepath.Join(dir, fmt.Sprintf("%02d_%s", pos, f.ID), base)
 	if err := os.MkdirAll(filepath.Dir(p), 0755); err != nil {
 		return "", err
 	}
@@ -354,6 +368,17 @@ func (r *c07run) argForm(dir string, form int) string {
 
 // addNoise drops a .gitignore and ignored regular files around the sources of a scanned directory.
 func (r *c07run) addNoise(dir string, n int, level int) {
+	// what merge tools, editors and interrupted rewrites leave next to a source
+	filepath.Walk(dir, func(p string, fi os.FileInfo, err error) error {
+		if err == nil && fi.Mode().IsRegular() && strings.HasSuffix(p, ".java") {
+			d, base := filepath.Split(p)
+			os.WriteFile(d+"."+base+".orig", []byte("kept by a merge tool\n"), 0644)
+			os.WriteFile(p+".orig", []byte("class Old {}\n"), 0644)
+			os.WriteFile(p+"~", []byte("class Old {}\n"), 0644)
+			return filepath.SkipDir
+		}
+		return nil
+	})
 	if level > 1 {
 		// between the package directories: a directory chain deeper than PATH_MAX
 		if err := makeDeepDir(dir, "aa_cache"); err == nil {
@@ -822,7 +847,8 @@ func (C07) Run(ctx *sim.RunCtx, data json.RawMessage) (*sim.Outcome, error) {
 			dir   string
 		}
 		var dl []delivered
-		var procIdx []int // index in proc.Ops of the operation that realises p.Ops[i]
+		var lastPaths []string // the list of the previous ident/full operation of this process
+		var procIdx []int      // index in proc.Ops of the operation that realises p.Ops[i]
 		for _, op := range p.Ops {
 			var files []int
 			for _, fi := range op.Files {
@@ -836,18 +862,24 @@ func (C07) Run(ctx *sim.RunCtx, data json.RawMessage) (*sim.Outcome, error) {
 			r.dirName = op.DirName
 			switch op.Pass {
 			case "ident", "full":
-				dir := r.newDir()
 				var paths []string
-				for pos, fi := range files {
-					pth, err := r.place(dir, pos, fi)
-					if err != nil {
-						return nil, sim.Harness("%v", err)
+				if op.SameList && lastPaths != nil {
+					paths = lastPaths
+					out.Faults["same-file-list-handed-over-again"]++
+				} else {
+					dir := r.newDir()
+					for pos, fi := range files {
+						pth, err := r.place(dir, pos, fi)
+						if err != nil {
+							return nil, sim.Harness("%v", err)
+						}
+						paths = append(paths, pth)
 					}
-					paths = append(paths, pth)
+					if paths == nil {
+						paths = []string{}
+					}
 				}
-				if paths == nil {
-					paths = []string{}
-				}
+				lastPaths = paths
 				if op.Pass == "ident" {
 					proc.Ops = append(proc.Ops, sim.Op{Op: "ident", Args: map[string]interface{}{"files": paths}})
 				} else if op.NoIdent {
